@@ -297,6 +297,8 @@ def _pch_text(b, in_set=False):
         if c in SET_SPECIAL:
             return "\\" + c
         return c
+    if c == "?":
+        return "[?]"      # the dialect has no \\? escape
     if c in RX_SPECIAL:
         return "\\" + c
     if c == " ":
@@ -346,7 +348,7 @@ def pr(n, binary=False):
                 out += "\\" + it[1]
             if binary:
                 out += " "
-        return out.rstrip() + "]"
+        return (out.rstrip() if binary else out) + "]"
     if t == "grp":
         return "(" + pr(n[1], binary) + ")"
     if t == "alt":
